@@ -16,6 +16,7 @@ import (
 	"github.com/Vedant9500/WTF/internal/recovery"
 	"github.com/Vedant9500/WTF/verifharness/gen"
 	"github.com/Vedant9500/WTF/verifharness/proc"
+	"github.com/Vedant9500/WTF/verifharness/ref"
 	"github.com/Vedant9500/WTF/verifharness/stat"
 	"pgregory.net/rapid"
 )
@@ -262,6 +263,18 @@ func c01Engine(useShipped bool) func(t *rapid.T) {
 				opt.ContextBoosts, opt.UseNLP, opt.UseFuzzy = nearBoosts, false, false
 			}
 		}
+		if alignedWord == "" && rapid.IntRange(0, 3).Draw(t, "boost-on-query-word") == 0 {
+			// a weight - negative, zero, NaN, tiny or large, but finite or NaN (an infinite weight is outside what any
+			// producer of boosts emits, and the engine passes it on) - on a word the query really contains
+			if qt := ref.Tokenize(q); len(qt) > 0 {
+				b := map[string]float64{}
+				for k, v := range opt.ContextBoosts {
+					b[k] = v
+				}
+				b[rapid.SampledFrom(qt).Draw(t, "boosted-query-word")] = rapid.SampledFrom([]float64{-2, math.NaN(), 0, 5e-324, 1e6, 3, -1e-300, 0.5}).Draw(t, "query-word-weight")
+				opt.ContextBoosts = b
+			}
+		}
 		e := rapid.SampledFrom(c01Entries).Draw(t, "entry")
 		if alignedWord != "" {
 			e = c01Entries[rapid.SampledFrom([]int{0, 0, 3, 5}).Draw(t, "aligned-entry")] // universal / cached / monitored
@@ -281,6 +294,12 @@ func c01Engine(useShipped bool) func(t *rapid.T) {
 				}
 				qcls = "recovery-fragments"
 			}
+		}
+		if !useShipped && alignedWord == "" && !strings.HasPrefix(e.name, "cli") && rapid.IntRange(0, 14).Draw(t, "one-word-many-times") == 0 {
+			// a held-down key or a pasted log line: one word (of the database, or one the language stage
+			// reacts to) repeated up to thousands of times; the programmatic entry points take any length
+			w := rapid.SampledFrom(append([]string{"find", "list", "file", "directory", "compress", "show"}, gen.Tokens(cmds)...)).Draw(t, "repeated-word")
+			q, qcls = strings.Repeat(w+" ", rapid.SampledFrom([]int{40, 300, 1200, 4000}).Draw(t, "repeats")), "one-word-many-times"
 		}
 		limit := opt.Limit
 		if limit <= 0 {
@@ -335,9 +354,32 @@ func c01Engine(useShipped bool) func(t *rapid.T) {
 		}
 		if e.name == "cached-limit-series" {
 			m := database.NewMonitoredDatabase(db)
-			for i := rapid.IntRange(2, 5).Draw(t, "series-len"); i > 0; i-- {
+			// "no limit" next to the defaults other layers use (5, 10), in both orders, then anything
+			series := rapid.Permutation([]int{0, 5, -1, 10}).Draw(t, "series-start")[:rapid.IntRange(2, 4).Draw(t, "series-start-len")]
+			for i := rapid.IntRange(0, 3).Draw(t, "series-len"); i > 0; i-- {
+				series = append(series, rapid.SampledFrom([]int{0, -1, 1, 2, 3, 5, 10, 100}).Draw(t, "series-limit"))
+			}
+			if !useShipped && len(cmds) >= 7 && rapid.Bool().Draw(t, "series-common-word") {
+				// a word that many entries share, so that the limits actually cut
+				docs, best, bestN := ref.Index(cmds), "", 0
+				for _, w := range gen.Tokens(cmds) {
+					n := 0
+					for i := range docs {
+						if docs[i].Has(w) {
+							n++
+						}
+					}
+					if n > bestN {
+						best, bestN = w, n
+					}
+				}
+				if bestN > 5 {
+					q = best
+				}
+			}
+			for _, lim := range series {
 				so := opt
-				so.Limit = rapid.SampledFrom([]int{0, -1, 1, 2, 3, 5, 10, 100}).Draw(t, "series-limit")
+				so.Limit = lim
 				sl := so.Limit
 				if sl <= 0 {
 					sl = c01Default["cached"]
